@@ -243,6 +243,9 @@ func genDbcSweep(g *G, k int) *gDbc {
 	}
 	for L := 1; L <= 33; L++ {
 		m := &gMsg{name: fmt.Sprintf("Sweep%d", L), size: 8, sender: "NodeS0", id: uint32(0x100 + L)}
+		if L > 16 {
+			m.name = fmt.Sprintf("XSweep%d", L-16) // an earlier message's name is a suffix of this one
+		}
 		if L%2 == 0 {
 			m.id = uint32(0x10000+L) | 0x80000000
 		}
@@ -289,6 +292,20 @@ func genDbc43(g *G, forceWC int) *gDbc {
 	ids := map[uint32]bool{}
 	for mi := 0; mi < nm; mi++ {
 		m := &gMsg{name: fmt.Sprintf("Msg%c%d", 'A'+byte(g.R.Intn(26)), mi), size: g.R.Intn(9), sender: node()}
+		if mi > 0 && g.R.Intn(3) == 0 {
+			// names that contain an earlier message's name as a suffix or prefix (lookups by name must be exact)
+			o := d.msgs[g.R.Intn(len(d.msgs))].name
+			if g.R.Bool() {
+				m.name = g.R.Pick("X", "Aux", "M") + o
+			} else {
+				m.name = o + g.R.Pick("1", "B", "_2")
+			}
+			for _, x := range d.msgs {
+				if x.name == m.name {
+					m.name = fmt.Sprintf("%sZ%d", m.name, mi)
+				}
+			}
+		}
 		if forceWC >= 0 || g.R.Intn(3) > 0 {
 			m.size = 8
 		}
@@ -628,7 +645,7 @@ func emitGenOps(g *G, nDbc, seqPerMsg, seqLen int, which string) {
 			force = i % len(widthClasses)
 		}
 		d := genDbc43(g, force)
-		if i < 4 && which == "C10" {
+		if i < 4 {
 			d = genDbcSweep(g, i)
 			g.Tag("dbc-length-sweep")
 		}
@@ -666,14 +683,18 @@ func emitGenOps(g *G, nDbc, seqPerMsg, seqLen int, which string) {
 			switch which {
 			case "C03":
 				// decode/encode on the payload basis, rejection, dispatch
-				for k := 0; k < seqPerMsg; k++ {
+				spm, stride := seqPerMsg, 3
+				if i < 4 {
+					spm, stride = 1, 7 // length-sweep programs: many messages, fewer lines each
+				}
+				for k := 0; k < spm; k++ {
 					g.Emit("gmsg %s %s un:%s,fr,rt", h, m.name, m.validFrame(g))
 					g.Emit("gmsg %s %s un:%s,un:%s", h, m.name, m.validFrame(g), m.badFrame(g))
 					g.Emit("gmsg %s %s un:%s,un:%s,fr", h, m.name, m.validFrame(g), m.validFrame(g)) // into a message that already holds a frame
 					g.Emit("gdisp %s %s", h, m.validFrame(g))
 					g.Emit("gdisp %s %s", h, m.badFrame(g))
 				}
-				for b := 0; b < 64; b += 1 + g.R.Intn(3) {
+				for b := 0; b < 64; b += 1 + g.R.Intn(stride) {
 					g.Emit("gmsg %s %s un:%s,fr", h, m.name, frameArg(m.id&0x7fffffff, m.size, 1<<uint(b), false, m.id&0x80000000 != 0))
 				}
 				// encode: every signal set to boundary raws, one at a time and all together
